@@ -39,8 +39,8 @@
       asked of the synced stripes only: synced_part, collision_free_synced).
 
    WHAT REMAINS OUTSIDE (the `_partial` names of 4b / 4c are kept for continuity; 4h has none): the time stamps / inode of the
-   files that the run rewrites are not stated here (for the files it does not touch: statement 4e); options are plain (no -d / -f / -m / -e filter, no -a, no import), hash size full
-   (reduced = false: finding d), and the hypotheses PastHashInvAll (findings b, c are its failures) and geom (the shape of the
+   files that the run rewrites are not stated here (for the files it does not touch: statement 4e); options are plain (no -d /
+   -f / -m / -e filter, no -a, no import), hash size full (reduced = false: finding d), and the hypotheses PastHashInvAll (findings b, c are its failures) and geom (the shape of the
    content file) are assumed, not derived from the history of the array.
    Proofs: Fix/PendingProofs.v.  Non-vacuity and the findings: Fix/PendingExamples.v. *)
 From Coq Require Import NArith ZArith List Bool Arith Lia.
